@@ -54,6 +54,13 @@ Definition Balanced_roundtrip_stmt : Prop :=
 Lemma balanced_roundtrip : Balanced_roundtrip_stmt.
 Proof. intros p lo hi e g ws rs Hp He Hr1 Hws Hr. rewrite element_word_roundtrip; auto. rewrite init_bal_canon; auto. Qed.
 
+(* ModularExtended, GFqDom (elements by their integer value): write prints the value, read = num_get ; init *)
+Definition Modular_word_roundtrip_stmt : Prop :=
+  forall (p lo hi e g : Z) (ws rs : list Z), canon_mod p e -> lo <= e <= hi -> Forall space ws -> head_nondigit rs ->
+    elt_read_word lo hi (init_mod p) (from_chars (ws ++ elt_write e ++ rs)) g = (e, after rs).
+Lemma modular_word_roundtrip : Modular_word_roundtrip_stmt.
+Proof. intros p lo hi e g ws rs He Hr1 Hws Hr. rewrite element_word_roundtrip; auto. rewrite init_mod_canon; auto. Qed.
+
 (* ---- RecInt: decimal display of ruint<K>, read back through mpz_class and mpz_to_ruint *)
 Definition valr (l : list Z) : Z := fold_right (fun c a => 10 * a + (c - 48)) 0 l.     (* least significant digit first *)
 Lemma val10_rev l : val10 (rev l) 0 = valr l.
